@@ -326,10 +326,15 @@ func (vc *VC) strLit(s string) string {
 		vc.emit(fmt.Sprintf("(assert (forall ((s Int)) (! (=> %s (= s %s)) :pattern ((slen s)))))", and(cs...), n))
 	}
 	// distinct from other literals
+	var others []string
 	for o, on := range vc.strLits {
 		if o != s {
-			vc.emit(fmt.Sprintf("(assert (not (= %s %s)))", n, on))
+			others = append(others, on)
 		}
+	}
+	sort.Strings(others) // deterministic query text
+	for _, on := range others {
+		vc.emit(fmt.Sprintf("(assert (not (= %s %s)))", n, on))
 	}
 	return n
 }
